@@ -326,10 +326,10 @@ def eval (look : Name → Option (List Node)) : Nat → List Vars → Defs → T
       match lastExtends cs with
       | none => eval look fuel ch defs' (.nodes cs)
       | some p =>
-        -- ExtendsNode.Render: NewRenderContext(ctx.env, ctx.context, ctx.engine), blockDefs handed over
+        -- ExtendsNode.Render: NewRenderContext(ctx.env, ctx.context, ctx.engine) with the same parent chain, blockDefs handed over
         match look p with
         | none => ⟨[], .err .notFound, ch⟩
-        | some pcs => framed (ctxBundle .newRenderContext) (eval look fuel [ch.headD []] defs' (.root pcs)) ch
+        | some pcs => framed (ctxBundle .newRenderContext) (eval look fuel (ch.headD [] :: ch.tail) defs' (.root pcs)) ch
     | .node (.text s) => ⟨[], .ok s, ch⟩
     | .node (.print v) =>
       match lookupChain v ch with
